@@ -80,6 +80,10 @@ fn random_mat4(rng: &mut Rng) -> Matrix4<f32> {
         return Matrix4::identity();
     }
     let mut m = Matrix4::identity();
+    // sometimes a homogeneous scale w != 1 (bottom row 0,0,0,w)
+    if rng.chance(0.15) {
+        m[(3, 3)] = *rng.pick(&[0.5f32, 0.75, 2.0]);
+    }
     // rotation about a random axis + non-uniform scale + translation
     let axis = nalgebra::Unit::new_normalize(nalgebra::Vector3::new(
         rng.uniform(-1.0, 1.0) as f32,
@@ -98,6 +102,14 @@ fn random_mat4(rng: &mut Rng) -> Matrix4<f32> {
 }
 
 fn check_prog(p: &Prog, seed: u64, tier: Tier, st: &mut Stats) -> Option<(String, String, Value)> {
+    check_prog_(p, seed, tier, st, true)
+}
+
+/// `dual_normals`: judge normals against the f64 dual-number gradient (CSG
+/// scenes, well conditioned); otherwise against the interpreter's gradient
+/// evaluator on the unsimplified shape (random expressions, where f32 and
+/// f64 derivatives legitimately differ by conditioning)
+fn check_prog_(p: &Prog, seed: u64, tier: Tier, st: &mut Stats, dual_normals: bool) -> Option<(String, String, Value)> {
     let mut rng = Rng::new(seed);
     let rng = &mut rng;
     let b = p.build();
@@ -198,9 +210,14 @@ fn check_prog(p: &Prog, seed: u64, tier: Tier, st: &mut Stats) -> Option<(String
                 }
             }
             let band = |k: usize| 1e-5 * pts[k].x.abs().max(pts[k].y.abs()).max(pts[k].z.abs()).max(1.0);
-            if vals.iter().enumerate().any(|(k, v)| v.is_nan() || v.abs() <= band(k)) {
-                st.inc("columns_skipped_zero_band_or_nan");
+            // a NaN voxel is simply not negative (like the renderer's `< 0`
+            // test); only the zero band makes a column undecidable
+            if vals.iter().enumerate().any(|(k, v)| v.abs() <= band(k)) {
+                st.inc("columns_skipped_zero_band");
                 continue;
+            }
+            if vals.iter().any(|v| v.is_nan()) {
+                st.inc("columns_with_nan_voxels_judged");
             }
             if vals[d as usize..].iter().any(|v| *v < 0.0) {
                 st.inc("columns_outside_claim_negative_beyond_top");
@@ -219,9 +236,33 @@ fn check_prog(p: &Prog, seed: u64, tier: Tier, st: &mut Stats) -> Option<(String
             if want > 0 {
                 let k = (want - 1) as usize;
                 let q = pts[k];
-                let mk = |v: f32, row: usize| D { v: v as f64, d: [m[(row, 0)] as f64, m[(row, 1)] as f64, m[(row, 2)] as f64] };
+                // position = (M p) / w; with bottom row (0,0,0,w) the
+                // derivative w.r.t. voxel coordinates is row / w
+                let w = m[(3, 3)] as f64;
+                let mk = |v: f32, row: usize| D { v: v as f64, d: [m[(row, 0)] as f64 / w, m[(row, 1)] as f64 / w, m[(row, 2)] as f64 / w] };
                 let inputs: HashMap<Var, D> = [(Var::X, mk(q.x, 0)), (Var::Y, mk(q.y, 1)), (Var::Z, mk(q.z, 2))].into_iter().collect();
-                let (g, skip) = dual::eval_graph_dual(&b.ctx, &order, &inputs)[&root];
+                let (mut g, mut skip) = dual::eval_graph_dual(&b.ctx, &order, &inputs)[&root];
+                if !dual_normals {
+                    // reference: interpreter gradient evaluator, original shape
+                    use fidget_core::types::Grad;
+                    let gs = Shape::<VmFunction>::new(&b.ctx, root).unwrap();
+                    let gt = gs.grad_slice_tape(Default::default());
+                    let mut gev = Shape::<VmFunction>::new_grad_slice_eval();
+                    let r = gev.eval_with_transform(
+                        &gt,
+                        &[Grad::new(i as f32, 1.0, 0.0, 0.0)],
+                        &[Grad::new(j as f32, 0.0, 1.0, 0.0)],
+                        &[Grad::new(k as f32, 0.0, 0.0, 1.0)],
+                        &m,
+                    );
+                    match r {
+                        Ok(o) => {
+                            g = D { v: o[0].v as f64, d: [o[0].dx as f64, o[0].dy as f64, o[0].dz as f64] };
+                            skip = !g.d.iter().all(|x| x.is_finite());
+                        }
+                        Err(_) => skip = true,
+                    }
+                }
                 if skip || m[(3, 0)] != 0.0 || m[(3, 1)] != 0.0 || m[(3, 2)] != 0.0 {
                     st.inc("normals_skipped_locus");
                 } else {
@@ -255,6 +296,25 @@ impl Prop for C07 {
     }
     fn run_case(&self, case: u64, rng: &mut Rng, st: &mut Stats, tier: Tier) {
         install_decision_hook();
+        if rng.chance(0.25) {
+            // random expression, possibly undefined (NaN) on part of the
+            // grid: sqrt/ln of negatives, division by intervals through zero
+            use crate::gen_::prog::{Bin, Consts, GenCfg, Un};
+            let mut g = GenCfg::random(rng, 30);
+            g.consts = Consts::Tame;
+            g.n_vars = 3;
+            g.n_outputs = 1;
+            g.allow_un.retain(|o| *o != Un::Rand);
+            g.allow_bin.retain(|o| *o != Bin::Mix && *o != Bin::Atan2);
+            let p = crate::gen_::prog::generate(rng, &g);
+            st.inc("scenes_random_expression");
+            st.distinct(p.hash());
+            let seed = rng.next_u64();
+            if let Some((sig, msg, detail)) = check_prog_(&p, seed, tier, st, false) {
+                st.violation(case, sig, msg, json!({"detail": detail, "shape": p.to_json(), "check_seed": seed.to_string()}));
+            }
+            return;
+        }
         let mut cfg = ShapeCfg::render();
         cfg.max_depth = 1 + rng.below(3);
         cfg.exotic = rng.chance(0.4);
